@@ -180,6 +180,18 @@ CLAIMED = {
             'harness clock for heartbeat staleness; scheduler trusted base as C04; in-process fake transport; (c) runs on real threads '
             'with a 60 s watchdog and reruns before reporting.',
             '§3 C20'),
+    'C14': ('exploration',
+            'generated remote-evaluation histories (expression trees, remote-object chains, remote iterators/queues, shutdown point, concurrent clients) on an in-process transport; differential against the C17 eager model',
+            'A real CourierServer is reached through real CourierClients over the in-process transport. Histories evaluate generated '
+            'lazy expression trees, create remote objects and drive attribute/item/method/call chains on them, iterate remote '
+            'generators (incl. failing ones), drain RemoteIteratorQueues with get/get_batch, request shutdown at a generated point, '
+            'optionally from up to three concurrent client threads. Every answer must equal the value (or exception type and '
+            'message) the eager model gives; remote-object state must persist between calls; iteration must yield exactly the '
+            'elements in order and end with StopIteration carrying the return value (stable afterwards); after a shutdown request '
+            'every answer is the correct value or a retriable TimeoutError; a watchdog catches hangs.',
+            'the fake transport models courier\'s observable contract; client and server share one process, so a mutation that '
+            'copies the remote object to the client cannot be observed (stated in DESIGN.md); real OS threads with a 60 s watchdog.',
+            '§2.3, §3 C14'),
 }
 
 PENDING_REASON = 'check not built yet in this session (work in progress; see DESIGN.md §9 build order) - not claimed until its check exists'
